@@ -223,12 +223,27 @@ def rel(x, y):
 
 
 # ------------------------------------------------------------------------------------------------ the run
+def identifiable(df, mods):
+    """valid input only: among the treated complete rows the modifiers (1, mods) are linearly independent with room to
+    spare (otherwise the structural parameters are not identified and lhm is singular by construction)"""
+    c = df[df['Y'].notna() & (df['A'] == 1)]
+    if len(c) < 3 * (len(mods) + 1):
+        return False
+    V = np.column_stack([np.ones(len(c))] + [np.asarray(c[m], dtype=float) for m in mods])
+    sv = np.linalg.svd(V, compute_uv=False)
+    return bool(sv[-1] > 0.15 * sv[0] / (len(mods) + 1)) and all(c[m].nunique() > 1 for m in mods) and \
+        all(min((c[m] == v).sum() for v in (0, 1)) >= 2 for m in mods if m.startswith('L'))
+
+
 def gen_cases(ctx):
     n_gen, n_sat = (22, 10) if ctx.quick else (260, 100)
     cases = []
     for i in range(n_gen):
-        df, meta = make_frame(ctx.rng)
         f, mods = SNMS[i % len(SNMS)]
+        for _ in range(50):
+            df, meta = make_frame(ctx.rng)
+            if identifiable(df, mods):
+                break
         cases.append((df, meta, f, mods))
     for i in range(n_sat):
         df, meta = make_frame(ctx.rng, saturated=True)
